@@ -6,6 +6,7 @@ import numpy as np
 import pandas as pd
 
 from harness.proj import to_rat, rat_close
+from checks import binding
 from harness.core import Machinery
 
 LEVEL = "model_checking"
@@ -239,10 +240,11 @@ def code_to_spec(ctx, sutils, boxplot, ncases):
     with open(path, "w") as f:
         for r in recs:
             f.write(json.dumps(r) + "\n")
-    res = ctx.tlc("SummariesTrace", "MC_SummariesTrace.cfg", workers=1, timeout=3000, heap="6g", stack="256m",
+    res = ctx.tlc("SummariesTrace", "MC_SummariesTrace.cfg", timeout=3000, heap="6g", stack="256m",
                   env={"TRACE_FILE": str(path)})
     if not res.tuples("VALIDATED"):
         raise Machinery("SummariesTrace did not complete:\n" + res.out[-2500:])
+    ctx.binding_demo("SummariesTrace", "MC_SummariesTrace.cfg", path, binding.summaries, timeout=3000, heap="6g", stack="256m")
     for line in res.tuples("REJECT"):
         parts = line.strip("<>").split(",")
         r = recs[int(parts[1]) - 1]
